@@ -196,7 +196,7 @@ def run_job(job, findings_open):
         status, vals = concretise(c, [neg])
         if status != "sat":
             return status
-        entry = dict(job=job.key(), obligation=ob.name, path=pidx, inputs=vals, reproduced=False, detail=ob.note,
+        entry = dict(job=job.key(), obligation=ob.name, path=pidx, inputs=vals, reproduced=False, detail=ob.note, note=ob.note,
                      finding=finding)
         if vals is not None:
             try:
